@@ -49,6 +49,9 @@ type sched struct {
 	Checks  []string   `json:"checks"`
 	Prop    string     `json:"prop"`
 	ExpectPresent []string `json:"expect_present,omitempty"`
+	ExpectLimit   int64    `json:"expect_limit,omitempty"`
+	ExpectIntervalMs int   `json:"expect_interval_ms,omitempty"`
+	ExpectNotNotifiedAfterDestroy bool `json:"expect_not_notified_after_destroy,omitempty"`
 }
 
 type lru struct {
@@ -482,6 +485,18 @@ func eventRaceScenarios() []evSched {
 	}
 }
 
+// component level: back-to-back limit / interval / budget changes; Destroy in both orders
+func c19CacheScenarios() []sched {
+	var ps []sched
+	for _, be := range []string{"memory", "file"} {
+		base := cp{Backend: be, Shards: 2, Limit: 100000, Interval: 1000}
+		ps = append(ps, sched{Name: "limit-v1-v2/" + be, cp: base, Prop: "C19", Threads: [][]string{{"L:400", "L:800"}}, Final: []string{"Q"}, ExpectLimit: 800})
+		ps = append(ps, sched{Name: "interval-v1-v2/" + be, cp: base, Prop: "C19", Threads: [][]string{{"I:500", "I:700"}}, Final: []string{"Q"}, ExpectIntervalMs: 700})
+		ps = append(ps, sched{Name: "limit-vs-destroy/" + be, cp: base, Prop: "C19", Threads: [][]string{{"L:400"}, {"X"}}, Final: []string{"Q", "L:900", "Q"}, ExpectNotNotifiedAfterDestroy: true})
+	}
+	return ps
+}
+
 func checkC19() *checkDef {
 	return &checkDef{
 		ID: "C19", Title: "Components follow the latest setting; unsubscribing is safe in any order", Level: "model_checking",
@@ -504,6 +519,8 @@ func checkC19() *checkDef {
 				{Pkg: "./utils/event", Scenario: "event/seq", Params: map[string]int{"listeners": 3, "depth": depth}},
 				{Pkg: "./utils/event", Scenario: "event/sched", Params: sc, K: k, E: 1, F: 2, Horizon: 2000, Workers: 4},
 				{Pkg: "./config", Scenario: "config/listener-sched", Params: map[string]any{}, K: k, E: 1, F: 2, Horizon: 5000, Workers: 4},
+				{Pkg: "./proxy", Scenario: "proxy/switches", Params: map[string]any{}, Workers: 8},
+				{Pkg: "./cache", Scenario: "cache/sched", Params: c19CacheScenarios(), K: k, E: 1, F: 2, Horizon: 5000},
 			}
 		},
 	}
